@@ -863,6 +863,11 @@ class TypeBlocks(ContainerOperand):
             result.flags.writeable = False
             return result
         else:
+            row_dtype = self._row_dtype
+            if row_dtype == DTYPE_OBJECT:
+                # append() marks the row dtype as object whenever an added block differs in dtype; reduce with the resolved dtype of the blocks, as when built from the same blocks at once
+                row_dtype = resolve_dtype_iter(b.dtype for b in self._blocks)
+
             if axis == 0:
                 # reduce all rows to 1d with column width
                 shape: tp.Union[int, tp.Tuple[int, int]] = self._shape[1]
@@ -875,7 +880,7 @@ class TypeBlocks(ContainerOperand):
                 array = self._blocks_to_array(
                         blocks=self._blocks,
                         shape=self._shape,
-                        row_dtype=self._row_dtype,
+                        row_dtype=row_dtype,
                         row_multiple=True)
                 result = func(array=array, axis=axis)
                 result.flags.writeable = False
@@ -885,14 +890,14 @@ class TypeBlocks(ContainerOperand):
             if dtypes:
                 # Favor self._row_dtype's kind if it is in dtypes, else take first of passed dtypes
                 for dt in dtypes:
-                    if self._row_dtype.kind == dt.kind:
-                        dtype = self._row_dtype
+                    if row_dtype.kind == dt.kind:
+                        dtype = row_dtype
                         break
                 else: # no break encountered
                     dtype = dtypes[0]
                 astype_pre = dtype.kind in DTYPE_INEXACT_KINDS
             else:
-                dtype = self._row_dtype
+                dtype = row_dtype
                 astype_pre = True # if no dtypes given (like bool) we can coerce
 
             # If dtypes were specified, we know we have specific targets in mind for output
